@@ -509,6 +509,11 @@ def _ds_fn(log, mode, first_index=None):
         if mode == "auto":
             import xarray as xr
             return xr.Dataset({"x": float(i), "v": ("t", np.array([float(i), i + 0.5]))}, coords={"t": T_VALUES})
+        if mode == "autolab":
+            # a labelled result that carries a scalar non-index coordinate depending on the swept arguments: part of "what the
+            # function returned" at that point
+            import xarray as xr
+            return xr.Dataset({"x": float(i), "v": ("t", np.array([float(i), i + 0.5]))}, coords={"t": T_VALUES, "lab": 3.0 * i})
         if mode == "autoc":
             # labelled output whose internal dimension has no coordinate of its own: a constant names it
             import xarray as xr
@@ -592,6 +597,16 @@ def replay_case(case, variant):
                     exec(src, ns)
                     res = car.case_runner(ns["wrapped"], tuple(names), conc.cases(as_dict=False),
                                           combos=combos, constants={**conc.resources, **consts}, split=split, **opts)
+                elif (entry == "case_runner" and cfg["nca"] >= 2 and kind == "flat" and variant.get("kw_cases") and not cfg["overlap"]
+                      and not (cases is not None and isinstance(cases, dict))):
+                    # a function that names only its first swept argument and takes the others through **kwargs: cases spelled
+                    # as dicts carry keys that are not among the (inferred or explicit) fn_args - every key must reach the call
+                    names = list(conc.case_names)
+                    src = "def wrapped(%s, **rest):\n    return target(%s=%s, **rest)\n" % (names[0], names[0], names[0])
+                    ns = {"target": fn}
+                    exec(src, ns)
+                    res = car.case_runner(ns["wrapped"], None if variant.get("bare_cases") else (names[0],), conc.cases(as_dict=True),
+                                          combos=combos, constants={**conc.resources, **consts}, split=split, **opts)
                 elif entry == "case_runner" and cfg["nca"] and kind == "flat":
                     res = car.case_runner(fn, conc.case_names[0] if (len(conc.case_names) == 1 and variant.get("bare_cases")
                                                                      and variant.get("values") != "tup") else conc.case_names, cases_t,
@@ -602,7 +617,7 @@ def replay_case(case, variant):
             else:
                 mode = variant.get("ds", "x")
                 to_df = kind == "df"
-                var_names = {"x": "x", "xy": ["x", "y"], "xv": ["x", "v"], "auto": None, "autodict": None, "autovar": None, "xmix": "x", "autoc": None}[mode]
+                var_names = {"x": "x", "xy": ["x", "y"], "xv": ["x", "v"], "auto": None, "autodict": None, "autovar": None, "xmix": "x", "autoc": None, "autolab": None}[mode]
                 var_dims = None
                 var_coords = None
                 if mode == "xv":
@@ -760,7 +775,7 @@ def check_ds(case, conc, variant, ds):
     mode = variant.get("ds", "x")
     axes = case["axes"]
     avals = axis_values(conc, axes)
-    vars_ = {"x": ["x"], "xy": ["x", "y"], "xv": ["x", "v"], "auto": ["x", "v"], "autodict": ["x", "y"], "autovar": ["x", "v"], "xmix": ["x"], "autoc": ["x", "v"]}[mode]
+    vars_ = {"x": ["x"], "xy": ["x", "y"], "xv": ["x", "v"], "auto": ["x", "v"], "autodict": ["x", "y"], "autovar": ["x", "v"], "xmix": ["x"], "autoc": ["x", "v"], "autolab": ["x", "v"]}[mode]
     if sorted(ds.data_vars) != sorted(vars_):
         return "data variables %r, expected %r" % (sorted(ds.data_vars), sorted(vars_))
     for nm, vals in zip(conc.fn_args, avals):
@@ -774,8 +789,10 @@ def check_ds(case, conc, variant, ds):
         if tuple(ds[v].dims) != want:
             return "variable %r has dims %r, expected %r" % (v, tuple(ds[v].dims), want)
     want_coords = set(conc.fn_args) | set(case["coords"])
-    if mode in ("auto", "autovar"):
+    if mode in ("auto", "autovar", "autolab"):
         want_coords |= {"t"}
+    if mode == "autolab":
+        want_coords |= {"lab"}
     if set(map(str, ds.coords)) != want_coords:
         return "coordinates %r, expected %r" % (sorted(map(str, ds.coords)), sorted(want_coords))
     tvals = None
@@ -797,6 +814,12 @@ def check_ds(case, conc, variant, ds):
     for k, pt in enumerate(itertools.product(*avals)):
         sel = ds.sel(dict(zip(conc.fn_args, pt)))
         i = out[k]
+        if mode == "autolab" and i:
+            # (nothing is demanded of the coordinate at slots that were never computed)
+            lab = np.asarray(sel["lab"].values, dtype=float)
+            if lab.shape != () or float(lab) != 3.0 * i:
+                return "ds.sel(%r) carries the non-index coordinate lab = %r, the function returned %r there" % (
+                    dict(zip(conc.fn_args, pt)), lab.tolist(), 3.0 * i)
         for v in vars_:
             a = np.asarray(sel[v].values, dtype=float)
             if v == "x" and mode == "xmix":
@@ -872,7 +895,7 @@ def variants_for(case, idx, prop, n_variants):
                  exec=EXEC_STYLES[(k + j) % 3], seed=[True, 3, 11][(k + j) % 3],
                  cases_as_dict=(k % 2 == 0), noshuffle=[False, 0][(k // 3) % 2], case_key_order=(k % 3 == 1),
                  dupkind=k % 3, decoy=(k % 2 == 1), bare_cases=(k % 4 < 2), infer_fn_args=(k % 5 < 2),
-                 grid_order=[None, "desc", None, "rot"][(k + j) % 4], sig_perm=(k % 2 == 1), bare_case=(k % 2 == 0), seq_attr=(k % 3 != 1), scalar_overlap=(((k // 7) // 4) % 2 == 1))
+                 grid_order=[None, "desc", None, "rot"][(k + j) % 4], sig_perm=(k % 2 == 1), kw_cases=(k % 5 >= 2 and k % 2 == 0), bare_case=(k % 2 == 0), seq_attr=(k % 3 != 1), scalar_overlap=(((k // 7) // 4) % 2 == 1))
         # numbers next to strings: positional outputs only (a Dataset coordinate would turn them all into strings); the
         # union of such case values has no defined order, so a nested case output is then compared as a multiset
         ok_hs = (not cfg.get("dup")) and cfg["kind"] in ("nested", "flat")
@@ -890,7 +913,7 @@ def variants_for(case, idx, prop, n_variants):
         elif cfg["kind"] == "ds":
             modes = ["x", "xy", "xv", "auto"] if cfg["meta"]["tdim"] else ["x", "xy", "autodict", "xmix"]
             if cfg["meta"]["tdim"]:
-                modes = ["xv", "auto", "autovar"] if not cfg["meta"]["cdim"] else ["xv", "autoc"]
+                modes = ["xv", "auto", "autovar", "autolab"] if not cfg["meta"]["cdim"] else ["xv", "autoc"]
             v["ds"] = modes[(k + j) % len(modes)]
             entries = ["to_ds", "runner", "label"] + (["case_to"] if cfg["nca"] else [])
             v["entry"] = entries[(k + j) % len(entries)]
